@@ -1,6 +1,7 @@
 package main
 
 import (
+	"strings"
 	"bytes"
 	"fmt"
 	"runtime"
@@ -41,6 +42,15 @@ func runC19(cfg *config) *Report {
 			ops = append(ops, fmt.Sprintf("read\t%s\t%s\t0\t%s\t%s", b01(c.enc.LP), b01(c.enc.EBCDIC), now, hx(c.in)),
 				fmt.Sprintf("read\t%s\t%s\t1\t%s\t%s", b01(c.enc.LP), b01(c.enc.EBCDIC), now, hx(c.in)))
 		}
+		// whole-field fills are also read by the reader over the hand-written Spec tables with the mode off: what only
+		// the relaxations of the mode admit must be refused when it is off
+		specAt := map[int]int{}
+		for i, c := range cases {
+			if strings.Contains(c.desc, "filled with") {
+				specAt[i] = len(ops)
+				ops = append(ops, fmt.Sprintf("readSpec\t%s\t%s\t0\t%s\t%s", b01(c.enc.LP), b01(c.enc.EBCDIC), now, hx(c.in)))
+			}
+		}
 		got, err := leanParallel(cfg.driver, ops, runtime.NumCPU())
 		if err != nil {
 			fatal("driver: %v", err)
@@ -58,6 +68,10 @@ func runC19(cfg *config) *Report {
 				}
 				rep.violate(Violation{Key: "C19:corr:read:frb-" + which + ":" + c.enc.String(), What: "model reader and Reader.Read disagree",
 					Replay: map[string]any{"bytes": hx(c.in), "enc": c.enc.String(), "desc": c.desc, "implementation": impl[:min(300, len(impl))], "model": model[:min(300, len(model))]}, NoInput: true})
+			}
+			if k, ok := specAt[i]; ok && len(rs.off) >= 2 && rs.off[:2] == "ok" && !strings.HasPrefix(got[k], "ok") {
+				rep.violate(Violation{Key: "C19:lenient-with-mode-off:" + c.enc.String(), What: "with FRB compatibility mode off the reader accepts an input that the layout rules refuse (" + c.desc + ")",
+					Replay: map[string]any{"bytes": hx(c.in), "enc": c.enc.String(), "desc": c.desc, "mode_off": rs.off[:min(200, len(rs.off))], "spec": got[k][:min(200, len(got[k]))]}})
 			}
 			if len(rs.off) >= 2 && rs.off[:2] == "ok" {
 				rep.nontrivial(string(c.in))
